@@ -572,7 +572,7 @@ func cmdRun(args []string) int {
 		exit = 1
 	}
 	known := loadKnown(*knownPath)
-	var knownSeen []string
+	knownSeen := []string{}
 	for _, k := range known {
 		if k.Status == "open" && k.Property == p.ID && tot.Known[k.ID] > 0 {
 			fmt.Printf("KNOWN-FINDING: property=%s %s: %s (seen in %d runs; e.g. %s)\n", p.ID, k.ID, k.Text, tot.Known[k.ID], tot.KnownSample[k.ID])
@@ -580,7 +580,7 @@ func cmdRun(args []string) int {
 		}
 	}
 	wall := time.Since(start).Seconds()
-	var unfired []string
+	unfired := []string{}
 	for _, m := range p.MustFire {
 		if tot.Probes[m] == 0 && tot.Fired[m] == 0 {
 			unfired = append(unfired, m)
